@@ -4,6 +4,7 @@
 import IppModel.Model.Ready
 import IppModel.Spec.Names
 import IppModel.Lemmas.SMapBasic
+import IppModel.Lemmas.Ready
 namespace Ipp.Props.C17
 open Ipp Ipp.Gen Ipp.Spec
 
@@ -41,24 +42,33 @@ theorem ready_iff (h : Header) (gs : List Group) :
     isPrinterReady h gs =
       if isSuccess (statusOf h.opOrStatus.toNat) = false then .error (statusOf h.opOrStatus.toNat)
       else .ok (!stopped gs && !blockedBy gs) := by
-  sorry
+  have hk : ∀ r, keywordsOf r = Ready.keywordsOf r := fun _ => rfl
+  have h1 : stopped gs = Ready.stoppedV (printerAttr N.printer_state gs) := by
+    unfold stopped Ready.stoppedV; split <;> simp_all
+  have h2 : blockedBy gs = Ready.blockedV blocking (printerAttr N.printer_state_reasons gs) := by
+    unfold blockedBy Ready.blockedV; split <;> simp_all
+  rw [Ready.ready_core, h1, h2, names_pin.1, names_pin.2.1, error_states_pin]
 
 /-- an error carrying the IPP status exactly when the status is not successful -/
 theorem error_iff_not_success (h : Header) (gs : List Group) :
     (∃ s, isPrinterReady h gs = .error s) ↔ isSuccess (statusOf h.opOrStatus.toNat) = false := by
-  sorry
+  rw [ready_iff]
+  cases isSuccess (statusOf h.opOrStatus.toNat) <;> simp
 
 /-- a stopped printer is never ready -/
 theorem stopped_not_ready (h : Header) (gs : List Group) (hs : stopped gs = true) : isPrinterReady h gs ≠ .ok true := by
-  sorry
+  rw [ready_iff, hs]
+  split <;> simp
 
 /-- a printer with any blocking reason – single keyword or anywhere in a set – is never ready -/
 theorem blocked_not_ready (h : Header) (gs : List Group) (hb : blockedBy gs = true) : isPrinterReady h gs ≠ .ok true := by
-  sorry
+  rw [ready_iff, hb]
+  split <;> simp
 
 /-- an idle or processing printer with successful status whose reasons are absent or contain no blocking word is ready -/
 theorem otherwise_ready (h : Header) (gs : List Group) (hok : isSuccess (statusOf h.opOrStatus.toNat) = true)
     (hs : stopped gs = false) (hb : blockedBy gs = false) : isPrinterReady h gs = .ok true := by
-  sorry
+  rw [ready_iff, hok, hs, hb]
+  simp
 
 end Ipp.Props.C17
